@@ -635,6 +635,17 @@ theorem shape_migrateloop : Gen.MigrateLoop.untranslated = ["!gcas.tg.Sleep(Repo
 theorem shape_impactround : Gen.ImpactRound.untranslated = ["err != nil", "err != nil", "err != nil"] := by decide
 theorem shape_listenudp : Gen.ListenUDP.untranslated = ["server.tg.IsStopped()", "err != nil", "!server.tg.IsStopped()"] := by decide
 theorem shape_buildstats : Gen.BuildStats.untranslated = ["i < 2016"] := by decide
+/-- The three places where a signature decides: a datagram is parsed (length, known id, signature - nothing
+else, and nothing that could switch the signature test off), an authorization is verified, a registration is
+accepted (not yet registered, signature of the temporary key, the key file written). -/
+theorem shape_parsereport : Gen.ParseReport.condKinds = ["if-exit"] ∧
+    Gen.ParseReport.untranslated = ["!ok", "!glow.Verify(equipment.PublicKey, sb, report.Signature)"] := by decide
+theorem parsereport_length (n : BitVec 64) : Gen.ParseReport.c0 n = decide (n.toNat ≠ 80) := by
+  unfold Gen.ParseReport.c0
+  bv_arith
+theorem shape_verifyauth : Gen.VerifyAuth.condKinds = [] ∧ Gen.VerifyAuth.untranslated = ["!isValid"] := by decide
+theorem shape_registergca : Gen.RegisterGCA.condKinds = ["if-exit"] ∧ Gen.RegisterGCA.untranslated = ["!isValid", "err != nil"] ∧
+    (∀ b, Gen.RegisterGCA.c0 b = b) := by decide
 
 
 /-- `managedGetWattTimeWeekData` (production build) is called by the rotation BEFORE it rotates and has to
